@@ -1,4 +1,5 @@
 import SvModel.Lemmas.FuelMono
+import SvModel.Lemmas.DepthStep
 import SvModel.Gen.Grammar
 import SvModel.Gen.PpKinds
 /-!
@@ -46,5 +47,21 @@ theorem C09_success_is_final (fs : Fs) (incs : List Bytes) (n m : Nat) (h : n â‰
 example (C : Cfg) (s path : Bytes) (d : Defines) (ii sc : Bool) (rd : Nat) :
     Definite (preprocessStr C 1 s path d ii sc rd 65) := by
   simp [preprocessStr, recursiveLimit, Definite, PpError.oofIn]
+
+
+/-- **an `include level adds exactly one to the include depth and nothing to the resolve depth**: the `include arm consults `preprocess_inner`
+    only at `(resolve_depth, include_depth + 1)` (and the macro resolver, for a macro-named file, only at `(resolve_depth + 1, include_depth)`):
+    callees that agree at exactly those depths give the same result -/
+theorem C09_include_adds_one_level (C : Cfg) (recI recI') (recU recU') (inp : Input) (s path : Bytes) (ii sc : Bool) (rd id : Nat) (w : WState) (x : Tree)
+    (hI : âˆ€ p d sc ii, recI p d sc ii rd (id + 1) = recI' p d sc ii rd (id + 1))
+    (hU : âˆ€ inp s path x d ii sc, recU inp s path x d ii sc (rd + 1) id = recU' inp s path x d ii sc (rd + 1) id) :
+    armInclude C recI recU inp s path ii sc rd id w x = armInclude C recI' recU' inp s path ii sc rd id w x :=
+  armInclude_depth C recI recI' recU recU' inp s path ii sc rd id w x hI hU
+
+/-- **a macro expansion adds exactly one to the resolve depth and nothing to the include depth** -/
+theorem C09_usage_adds_one_level (C : Cfg) (recI recI') (recU recU') (inp : Input) (s path : Bytes) (ii sc : Bool) (rd id : Nat) (w : WState) (x : Tree)
+    (hU : âˆ€ inp s path x d ii sc, recU inp s path x d ii sc (rd + 1) id = recU' inp s path x d ii sc (rd + 1) id) :
+    armUsage C recI recU inp s path ii sc rd id w x = armUsage C recI' recU' inp s path ii sc rd id w x :=
+  armUsage_depth C recI recI' recU recU' inp s path ii sc rd id w x hU
 
 end Sv
